@@ -164,7 +164,22 @@ func NewModel() *Model {
 	return &Model{DS: map[string]*MDataset{}, EverName: map[string]bool{}}
 }
 
+// Names: the live datasets that hold data (proxy and virtual datasets only exist in the
+// catalogue: their content lives elsewhere, they are kept out of every data operation).
 func (m *Model) Names() []string {
+	var n []string
+	for k, d := range m.DS {
+		if d.Proxy || d.Virtual {
+			continue
+		}
+		n = append(n, k)
+	}
+	sort.Strings(n)
+	return n
+}
+
+// AllNames: every live dataset, proxy and virtual ones included.
+func (m *Model) AllNames() []string {
 	var n []string
 	for k := range m.DS {
 		n = append(n, k)
